@@ -6,7 +6,7 @@
    theorems are about.  Definitions only. *)
 From Coq Require Import List NArith ZArith.
 From Bignums Require Import BigN.
-From AHK Require Import Lib.Res Lib.ByteStr Model.Sha512 Model.Srp.
+From AHK Require Import Lib.Res Lib.ByteStr Model.Sha512 Model.Srp Model.SrpCases.
 Import ListNotations.
 
 Fixpoint bpowm_pos (b : BigN.t) (e : positive) (m : BigN.t) : BigN.t :=
@@ -43,9 +43,6 @@ Definition hap_server := server sha512 N3072 G3072 HK_KEY_LENGTH.
    ([tagged] keeps the length of a byte string). *)
 Local Open Scope N_scope.
 
-Definition bs (p : N * N) : bytes := bytes_of (fst p) (snd p).
-Definition b2n (b : bool) : N := if b then 1 else 0.
-
 (* client: username, setup code, salt, ephemeral a, received B_b, candidate accessory proofs.
    Answer: [[1]; A_b; M1; K; salt_b; accept bits] or [[0]] when the code raises. *)
 Definition client_case (I P salt : N * N) (a : N) (B_b : N * N) (Ms : list (N * N)) : list bytes :=
@@ -60,14 +57,3 @@ Definition server_case (I P salt : N * N) (b : N) (A_b M1_b : N * N) : list byte
   let r := hap_server_x powm_fast (bs I) (bs P) (bs salt) (Z.of_N b) (bs A_b) (bs M1_b) in
   [s_B_b r; s_K r; s_M1 r; [b2n (s_ok r)]; s_M2 r].
 
-(* constants of the model, to be compared with the module constants of srp.py *)
-Definition constants_case : list bytes :=
-  [PAD HK_KEY_LENGTH N3072; PAD HK_KEY_LENGTH G3072; PAD HK_KEY_LENGTH K_LITERAL; HGROUP_BYTES;
-   [N.of_nat HK_KEY_LENGTH; N.of_nat SALT_LENGTH]].
-
-(* small entry points; 999 (not a byte) marks "the code raises" *)
-Definition sha_case (m : N * N) : bytes := sha512 (bs m).
-Definition to_byte_array_case (neg : bool) (n : N) : bytes :=
-  match to_byte_array (if neg then Z.opp (Z.of_N n) else Z.of_N n) with Ok l => l | _ => [999] end.
-Definition pad_left_case (m : N * N) (len : N) : bytes :=
-  match pad_left (bs m) (N.to_nat len) with Ok l => l | _ => [999] end.
